@@ -3,7 +3,6 @@ use std::fmt::Write;
 
 use liquid_core::model::try_find;
 use liquid_core::model::KStringCow;
-use liquid_core::model::ValueViewCmp;
 use liquid_core::parser::parse_variable;
 use liquid_core::Expression;
 use liquid_core::Result;
@@ -62,25 +61,22 @@ fn safe_property_getter<'v>(
     }
 }
 
-fn nil_safe_compare(
-    a: &dyn ValueView,
-    b: &dyn ValueView,
-    nils: NilsOrder,
-) -> Option<cmp::Ordering> {
+fn nil_safe_compare(a: &dyn ValueView, b: &dyn ValueView, nils: NilsOrder) -> cmp::Ordering {
     if a.is_nil() && b.is_nil() {
-        Some(cmp::Ordering::Equal)
+        cmp::Ordering::Equal
     } else if a.is_nil() {
         match nils {
-            NilsOrder::First => Some(cmp::Ordering::Less),
-            NilsOrder::Last => Some(cmp::Ordering::Greater),
+            NilsOrder::First => cmp::Ordering::Less,
+            NilsOrder::Last => cmp::Ordering::Greater,
         }
     } else if b.is_nil() {
         match nils {
-            NilsOrder::First => Some(cmp::Ordering::Greater),
-            NilsOrder::Last => Some(cmp::Ordering::Less),
+            NilsOrder::First => cmp::Ordering::Greater,
+            NilsOrder::Last => cmp::Ordering::Less,
         }
     } else {
-        ValueViewCmp::new(a).partial_cmp(&ValueViewCmp::new(b))
+        // a total order, also for values the value model cannot compare
+        crate::sort_order(a, b)
     }
 }
 
@@ -131,10 +127,9 @@ impl Filter for SortFilter {
                     safe_property_getter(b, property, runtime).as_view(),
                     nils,
                 )
-                .unwrap_or(cmp::Ordering::Equal)
             });
         } else {
-            sorted.sort_by(|a, b| nil_safe_compare(a, b, nils).unwrap_or(cmp::Ordering::Equal));
+            sorted.sort_by(|a, b| nil_safe_compare(a, b, nils));
         }
         Ok(Value::array(sorted))
     }
